@@ -30,6 +30,8 @@ def run(ctx):
     N.n4_quotient(ctx)
     N.n5_count_lookup(ctx)
     N.n6_search_loop(ctx)
+    from ..engines import expandverified as X
+    X.x6_fallback_contract(ctx)
     SC.s0_compositions(ctx)
     SC.s3_ensure_level(ctx)
     M.m6_product_enumeration(ctx)
@@ -55,6 +57,6 @@ def run(ctx):
     K = LK.Kinds(ctx.P)
     LK.k2_root_identity(ctx, K, modules=("rule_db.base", "rule_db.forget"), floor=1)
     LK.k2_spec_roots(ctx, K, modules=("comb_spec_searcher",))
-    for r, n in (("N1", 2), ("N2", 3), ("N3", 3), ("N4", 10), ("N5", 3), ("N6", 5), ("S0", 4), ("S3", 4), ("M6", 2), ("M4", 2),
+    for r, n in (("N1", 2), ("N2", 3), ("N3", 3), ("N4", 10), ("N5", 3), ("N6", 5), ("X6", 2), ("S0", 4), ("S3", 4), ("M6", 2), ("M4", 2),
                  ("V1", 14), ("V2", 4), ("V3", 9), ("V10", 3), ("E10", 7), ("V4", 4), ("V6", 8), ("V7", 2), ("V11", 2), ("G1", 3), ("G2", 2), ("G3", 2), ("G4", 4), ("G5", 5), ("G6", 3), ("G7", 8), ("K2", 3)):
         ctx.floor(r, n)
